@@ -10,7 +10,7 @@ from pipelines import pipeline, cat_files, spec_must_hold, write_lines, replay_c
 
 CHECKS = {
  "C15": dict(
-  text="The persistent formats (plain and YAML genome, organism binary form, population file, fast-solver JSON model, experiment gob stream) are specified as token streams / documents with separately transcribed writer and reader models; TLC checks Read(Write(x)) = x (plain format: minus control genes; YAML: exact unless a negative zero occurs) on every genome, organism, population and experiment record in scope. Every structure is rebuilt from real objects with adversarial float64 values, written by the real writer (output compared token by token with the model's), read back by the real reader and compared bit for bit; restored fast solvers are driven against the originals; experiment statistics are compared before/after. Every genome of every generation of real evolution runs is round-tripped through every genome format (each generation also through Population.Write and WriteBySpecies -> ReadPopulation and the fast model file; every third genome again with node ids x1000 and innovation numbers beyond 32 bits), and the real plain encodings are validated by TLC against the writer and reader models (Trace_Codec).",
+  text="The persistent formats (plain and YAML genome, organism binary form, population file, fast-solver JSON model, experiment gob stream) are specified as token streams / documents with separately transcribed writer and reader models; TLC checks Read(Write(x)) = x (plain format: minus control genes; YAML: exact unless a negative zero occurs) on every genome, organism, population and experiment record in scope. Every structure is rebuilt from real objects with adversarial float64 values, written by the real writer (output compared token by token with the model's), read back by the real reader and compared bit for bit; restored fast solvers are driven against the originals; experiment statistics are compared before/after. Reads are also performed into values already in use (Experiment.Read into a value that held another / the same experiment with all statistics computed, Organism.UnmarshalBinary into a used organism; model: ExpReadInto / ReadIntoLaw - the result depends on the file only), and an organism's binary form must survive further marshalling. Every genome of every generation of real evolution runs is round-tripped through every genome format (each generation also through Population.Write and WriteBySpecies -> ReadPopulation and the fast model file; every third genome again with node ids x1000 and innovation numbers beyond 32 bits), and the real plain encodings are validated by TLC against the writer and reader models (Trace_Codec).",
   note="Exhaustive (TLC BFS) per dimension, not over the product: every gene line (all node pairs incl. self-loops, 4 flag combinations, trait pointer nil/set, 4-5 weight classes) over a fixed context; every node list of 0-1 bias, 0-1 (thorough 0-2) inputs, 1 (1-2) outputs, 0-1 hidden with trait pointers nil/set; every list of 1-2 (1-3) genes; all 400 output x hidden pairs of the 20 scalar activation types; one control gene with every module activation, 1-2 inputs/outputs; organisms, populations of <= 3 (4) and experiments of <= 2 (3) trials x <= 2 generations over a pool of 3 genomes. Larger genomes (<= 3 traits, 9 nodes, 7 genes, 2 modules) only by TLC simulation; evolved genomes are samples. Exactness of float text (shortest round-trip formatting) is decided by the replayer's bit comparison on 2 (thorough 4) seed-derived tables of ~1000 adversarial finite float64 values per structure, not by TLC. Assumptions: finite floats; -0.0 excluded for YAML only (its sign is lost there; kept everywhere else); every generation of an experiment has a champion (a nil champion writes a stream that cannot be read); only what the writers write is compared (not Trial.Duration, Experiment.RandSeed/MaxFitnessScore, species). Trusted: TLC, the replayer's construction and projection of genomes, yaml.v3/json/gob generic decoders used to compare documents.",
   technique=B2, ref="DESIGN.md 7/C15"),
 }
